@@ -204,8 +204,13 @@ def _drive_chunk(args):
                 _NOISE["stmts"] = list(getattr(prop, "noise", None) or NOISE_DEFAULT)
             ev = prop.drive(ops, random.Random(f"{seed}-{tid}"))
             out.append({"tid": tid, "ev": ev})
-        except Exception:  # a driver bug is machinery failure, never a verdict
-            out.append({"tid": tid, "error": traceback.format_exc()})
+        except Exception as e:
+            # an exception the driver did not expect.  Raised inside the implementation (fakesnow or the libraries under it):
+            # the behaviour could not be completed on this tree - a verdict.  Raised by the driver's own code: machinery failure.
+            frames = traceback.extract_tb(e.__traceback__)
+            where = os.path.realpath(frames[-1].filename) if frames else ""
+            key = "error" if where.startswith(os.path.realpath(VERIF) + os.sep) or not frames else "crash"
+            out.append({"tid": tid, key: traceback.format_exc(), "ops": ops})
     return out
 
 
@@ -422,6 +427,13 @@ class Run:
         bad = [t for t in traces if "error" in t]
         if bad:
             raise tlc.MachineryError(f"driver failed on {len(bad)} behaviours, first:\n{bad[0]['tid']}\n{bad[0]['error']}")
+        for t in [t for t in traces if "crash" in t]:
+            last = t["crash"].strip().splitlines()[-1][:300]
+            ev = [{"op": o, "obs": {}} for o in t["ops"]]
+            self.violations.append({"tid": t["tid"], "trace": {"tid": t["tid"], "ev": ev},
+                                    "verdict": {"v": "fail", "at": len(ev), "got": {"implementation raised": last},
+                                                "want": ["the behaviour runs to its end (every operation returns or raises what the specification names)"]}})
+        traces = [t for t in traces if "crash" not in t]
         return traces
 
     # ---- 4. judging
